@@ -219,7 +219,7 @@ def homogeneous_poisson_exp_interval(
     # disable gradient computation
     with torch.no_grad():
         # assume refrac is dt if unspecified
-        refrac = step_time if refrac is None else step_time
+        refrac = step_time if refrac is None else refrac
 
         # get number of steps, convert refrac from ms to dt
         steps, refrac = int(steps), refrac / step_time
@@ -321,7 +321,7 @@ def homogeneous_poisson_exp_interval_online(
     # disable gradient computation
     with torch.no_grad():
         # assume refrac is dt if unspecified
-        refrac = step_time if refrac is None else step_time
+        refrac = step_time if refrac is None else refrac
 
         # get number of steps, convert refrac from ms to dt
         steps, refrac = int(steps), refrac / step_time
